@@ -230,7 +230,9 @@ def run_plan(plan):
         V("memory-modified-by-read", "cells %s changed by a read" % [hex(a) for a in changed[:6]], site=kind)
     if other.cells != other_before:
         V("other-bank-modified-by-read", "another bank changed", site=kind)
-    if bank.number != 0 and (bank.has_latch or bank.has_lock):
+    if bank.number != 0 and (bank.has_latch or bank.has_lock) and plan["last"] >= 2:
+        # (a bank whose last accessible location is below 2 has no reachable
+        # lock byte: nothing a read could latch or un-latch)
         if bank.cells[2] == 0xAA and not (plan["lock"] == 0xAA and latch_image[0] is None):
             why = "after-garbled-answer" if any(f_ == "garble" for f_ in fired.values()) else \
                 ("after-error" if sr.status == "raise" else "after-normal-return")
